@@ -1,7 +1,8 @@
 """C05 - defs write at the call site; buffering, capture and calls with content.
 
 Streams (templates; attribute parsing / signatures are harness/c05_attrs.py's streams - oracle.attrs, oracle.attrs.multi,
-oracle.sig, corr.attrs*, corr.nsexpr, corr.sig* - called from here)
+oracle.sig, corr.attrs*, corr.nsexpr, corr.sig, corr.sig.fields - and the VALUES of parameter defaults are
+harness/c05_defaults.py's - oracle.sig.defaults, oracle.sig.default_names, corr.sig.defaults - all called from here)
   corr.structural     every generated template and every fixed witness (FIXED_SETS) in the plain surface style and in
                       sampled other styles (`self.`/`local.` calls, `<%self:d>`/`<%local:d>` tags with attribute
                       arguments): real `Template.code` canonicalised (harness/target_canon.py) vs the S-expression of
@@ -66,7 +67,10 @@ RULE = ("template sets (1-2 templates, the second one included by the first) fro
         "fixed witness sets (FIXED_SETS); each tree written in several surface styles (d(), self.d(), local.d(), "
         "<%call>, <%self:d attr=..>, <%local:d ..>); a case is non-trivial when a call with content runs its body at "
         "least once or a buffered/filtered/decorated/cached def is entered; distinct = distinct (template set, "
-        "surface style, check)")
+        "surface style, check).  Parameter defaults (harness/c05_defaults.py): expressions from a grammar of tuples "
+        "of length 0/1/2, nested containers, operators, conditionals, lambdas, slices and quoted strings, in 4 "
+        "declarations x 7 calling routes that leave the parameter to its default; value and type against a real "
+        "Python function with the same signature text")
 ASSUMPTIONS = [
     "templates are well-scoped, non-recursive, binders have unique names (gen_template invariants); the cache is a "
     "pass-through (cache_enabled=False; C17's subject); decorator bodies are user Python (a wrapping function)",
@@ -89,6 +93,8 @@ TRUSTED_EXTRA = ["C05: harness/c05_gen.py (generator, quirk feature tests, const
                  "families), harness/c05_rich.py (rich signatures: expected values from Python's own argument "
                  "binding), harness/c05_deco.py (decorator oracle: the same Python decorator on a plain function), "
                  "harness/c05_attrs.py (attribute / signature ground truth: Python's re, repr, ast and def binding), "
+                 "harness/c05_defaults.py (default values: a real Python function with the same signature text; "
+                 "expression trees travel in C19's wire syntax, harness/props/C19.py ser_expr), "
                  "harness/ref_render.py (reference renderer = oracle), harness/target_canon.py, "
                  "harness/gen_template.py"]
 DRIVER_OPS = ["tgt", "c05"]
@@ -739,7 +745,7 @@ def attrs(ctx, what):
 
 def run(ctx):
     sets, pending = [], []
-    from harness import c05_deco
+    from harness import c05_deco, c05_defaults
     try:
         run_oracles(ctx, sets, pending)
         c05_deco.oracle(ctx)
